@@ -255,9 +255,11 @@ Definition spec_sub (c : case) (i : nat) (qu : list path * bool) : list (nat * N
                                   || existsb (path_eqb p) (upd_paths (before_sync rs))) snap
              then [] else [(i, 4%N)]).
 
+(* a run that hung (after the harness re-ran it twice) is reported as a hang and as nothing
+   else: what was observed of it is incomplete and is not judged *)
 Definition spec_side (c : case) : list (nat * N) :=
-  (if c_bad c then [(0%nat, 5%N)] else [])
-  ++ flat_map (fun iq => spec_sub c (fst iq) (snd iq))
+  if c_bad c then [(0%nat, 5%N)] else
+  flat_map (fun iq => spec_sub c (fst iq) (snd iq))
               (combine (seq 0 (List.length (c_subs c))) (c_subs c)).
 
 Definition check_case (c : case) : list (nat * N) := model_side c ++ spec_side c.
